@@ -23,7 +23,7 @@ SPEC = os.path.join(VERIF, 'spec')
 HARNESS = os.path.join(VERIF, 'harness')
 OUT = os.environ.get('VERIF_OUT', os.path.join(VERIF, 'out'))
 BUILD = os.environ.get('VERIF_BUILD', os.path.join(VERIF, '.build'))
-EVID = os.path.join(VERIF, 'evidence')
+EVID = os.environ.get('VERIF_EVID', os.path.join(VERIF, 'evidence'))
 NCPU = int(os.environ.get('VERIF_JOBS', os.cpu_count() or 4))
 GUARD = 'GEOGRAPHICLIB_VERIF'
 
@@ -621,3 +621,62 @@ def main(argv=None):
     except FrameworkError as e:
         print('FRAMEWORK-ERROR %s: %s' % (a.prop, e), file=sys.stderr)
         sys.exit(2)
+
+
+# --------------------------------------------------------------------------
+# the standard M1/M2/M3 pipeline for function-like subsystems
+# --------------------------------------------------------------------------
+def lattice_pipeline(ctx, mc_module, parts, to_rows, driver, replay_args, record_args,
+                     trace_module, trace_cfg=None, flavour_record=None, min_vectors=100,
+                     parallel_gen=True, gen_workers=None, trace_env=None, drv_flags=(), drv_libs=()):
+    """parts: list of (label, cfg_text).  Each MC run checks the model invariants and emits vectors
+    (INVARIANT Emit).  Vectors are replayed on the real library; the replay trace and a seeded random
+    trace are validated line by line by TLC.  Returns (rows, trace files)."""
+    exe = build_driver(driver, 'plain', extra_flags=drv_flags, libs=drv_libs)
+    exe_rec = build_driver(driver, flavour_record, extra_flags=drv_flags, libs=drv_libs) if flavour_record else exe
+
+    def gen(p):
+        label, text = p
+        cfg = ctx.cfg('%s_%s' % (mc_module, label), text)
+        return ctx.generate(mc_module, cfg, workers=gen_workers or (max(2, NCPU // len(parts)) if parallel_gen else NCPU),
+                            timeout=3000, heap='6g')
+    if parallel_gen and len(parts) > 1:
+        with cf.ThreadPoolExecutor(len(parts)) as ex:
+            allv = list(ex.map(gen, parts))
+    else:
+        allv = [gen(p) for p in parts]
+    vals = [v for part in allv for v in part]
+    if len(vals) < min_vectors:
+        raise FrameworkError('too few vectors emitted: %d' % len(vals))
+    rows = to_rows(vals)
+    vin = ctx.path('vectors.txt')
+    write_lines(vin, rows)
+    ctx.cov['behaviours_replayed'] += len(rows)
+    traces = []
+    trace = ctx.path('trace.ndjson')
+    rc, err = ctx.drive(exe, replay_args, infile=vin, outfile=trace)
+    if rc != 0:
+        ctx.violation('driver crashed replaying lattice vectors (rc=%d): %s' % (rc, err[-600:]),
+                      [{'e': 'ReplayHeader', 'property': ctx.pid, 'law': 'no-crash', 'vectors': vin}])
+        return rows, traces
+    traces.append(trace)
+    if record_args is not None:
+        rt = ctx.path('trace-rt.ndjson')
+        rc, err = ctx.drive(exe_rec, record_args, outfile=rt)
+        if rc != 0:
+            ctx.violation('driver crashed on seeded random records (rc=%d): %s' % (rc, err[-600:]),
+                          [{'e': 'ReplayHeader', 'property': ctx.pid, 'law': 'no-crash', 'seed': ctx.seed}])
+            return rows, traces
+        traces.append(rt)
+    for tf in traces:
+        n, rej = ctx.validate(trace_module, trace_cfg or trace_module, tf, shards=NCPU, group_key=None,
+                              env=trace_env)
+        ctx.cov['traces_validated_against_impl'] += 1
+        ctx.report_rejects(rej, tf)
+        with open(tf) as f:
+            lines = f.readlines()
+        step = max(1, len(lines) // 5)
+        for i in range(0, len(lines), step):
+            ctx.sample(lines[i].strip()[:400])
+    ctx.cov['distinct_nontrivial'] += len(rows)
+    return rows, traces
